@@ -46,6 +46,10 @@ var optAlpha = map[string][]rune{
 	"csv":        {'a', ',', '"', '\r', '\n', 0x416},
 	"mustache":   {'a', '{', '}', '#', ' ', '\n', '"', 0x1F600},
 	"generic-custom": {'a', '=', ':', '<', '!', '-', '>', ' ', '\n'},
+	"generic-arrows":     {'a', 0x2192, 0x3000, 0x416, ' ', '\'', '#'},
+	"csv-wide":           {'a', 0xff1b, 0xab, '"', '\r', '\n', 0x416},
+	"generic-quotes":     {'a', 0xab, 0x201c, '\'', ' ', '#', '\n'},
+	"generic-unknownsym": {'a', '?', '!', ' ', 0xffff, '#', '\n'},
 }
 
 var optSnippets = map[string][]string{
@@ -54,6 +58,10 @@ var optSnippets = map[string][]string{
 		"😀/**/ 😀 1", " /**/ ", "x /* unterminated"},
 	"csv":      {"a,b\r\n\"c,d\",\"e\"\"f\"\n", "\"x\"\r\"y\"\n\r\"\"", "a,\"multi\nline\",b\rc"},
 	"generic-custom": {"a =:= b\n=: c", "<!-- x\n--> !>>> !>>\n!"},
+	"generic-arrows":     {"страна a → b\u3000\u3000x→→y ← # c\n→", "日本\u3000語 → 'q→' 12  "},
+	"csv-wide":           {"日本；語；«q；»»r«\r\nстрана；\"x\"\"y\"；；\n", "a,b；c\r«open；", "«a««b«；«««"},
+	"generic-quotes":     {"a «b  c« “d“ 'e' \"f\" # c\n«open", "x«« ““y «'« “\"“ \uffff"},
+	"generic-unknownsym": {"a ? b ?! c !? <= ? # c\n?", "??!?\uffff?# c\n? ?"},
 	"mustache": {"Hello, {{ Name }}!\n{{#if a}} x {{/if}}", "{{ 'q'  \"r\" }} t {{{ b }}}", "a\r\n{{ b 😀 c }}\n d", "{{a}}{{b}} {{ c  d }}"},
 }
 
@@ -64,6 +72,10 @@ var optLexemes = map[string][]string{
 	"csv":            {"a", ",", "\"q\"\"r\"", "\r\n", "\n", "😀", "\"\""},
 	"mustache":       {"text", "{{", "}}", "{{{", "}}}", "a", " ", "\n", "😀", "'q'", "#"},
 	"generic-custom": {"a", "=:=", "=:", " ", "\n", "😀", "<!--", "# c"},
+	"generic-arrows":     {"a", "→", "→←", "\u3000", " ", "ж", "# c", "'q→'", "😀"},
+	"csv-wide":           {"a", "；", "«q««r«", "\"q\"", "\r\n", "ж", "««", "😀"},
+	"generic-quotes":     {"a", "«q r«", "“q“", "'q'", " ", "# c", "😀", "\n"},
+	"generic-unknownsym": {"a", "?", "?!", "!", " ", "# c", "\uffff", "\n"},
 }
 
 func genOpts(g *Gen, positions bool) {
@@ -96,6 +108,59 @@ func genOpts(g *Gen, positions bool) {
 						g.Run(fmt.Sprintf("lexeme sequences<=3 x %d option sets:%s", len(sets), kind),
 							[]Ev{{"op": "tok", "kind": kind, "opts": toAnyList(optList(bits)), "input": cps(in)}})
 					}
+				}
+			}
+		}
+		for i, in := range rareInputs() {
+			g.Run("rare code points in every context:"+kind, []Ev{{"op": "tok", "kind": kind, "opts": toAnyList(optList([]int{127, 0, 1 | 2 | 4 | 8, 16 | 32 | 64, 85, 42}[i%6])), "input": cpsR(in)}})
+		}
+		// a line break (each style) at every offset around the multiples of 64, after a token that reads it and puts it back
+		var offs []int
+		if g.Thorough() {
+			for p := 1; p < 300; p++ {
+				offs = append(offs, p)
+			}
+		} else {
+			offs = []int{62, 63, 64, 65, 126, 127, 128, 129, 191, 192, 255, 256}
+		}
+		fill := map[string]string{"generic": "ab 12 <= ", "expression": "ab 1.5 <= ", "csv": "ab,12,\"q\",", "mustache": "ab {{c}} d", "generic-custom": "a=:=b <!-- ",
+			"generic-arrows": "ab→ж 12 ", "csv-wide": "ab；«q«；ж；", "generic-quotes": "ab «q« 12 ", "generic-unknownsym": "ab ?! 12 "}[kind]
+		for _, p := range offs {
+			for bi, br := range []string{"\n", "\r\n", "\r", "\n\r"} {
+				if !g.Thorough() && bi >= 2 && p%64 != 63 {
+					continue
+				}
+				in := []rune(strings.Repeat(fill, 40))[:p]
+				in = append(in, []rune(br+"x1 "+br+br+"y")...)
+				g.Run("a line break at every offset around the multiples of 64:"+kind, []Ev{{"op": "tok", "kind": kind, "opts": toAnyList(optList([]int{0, 127, 2 | 16}[p%3])), "input": cpsR(in)}})
+			}
+		}
+		for _, cnt := range []int{64, 129, 257, 300, 1030} {
+			if cnt > g.Pick(260, 1100) || (positions && cnt > g.Pick(64, 300)) || (!g.Thorough() && cnt == 64) {
+				continue
+			}
+			for _, unit := range []string{"\uffff", "# c\n", "/*c*/ ", "\U0001f600", " \n", "?", "{{!c}}", "\uffff "} {
+				for bi, bits := range []int{127, 1, 2 | 4, 2, 1 | 2 | 4, 16} {
+					if !g.Thorough() && bi >= 3 {
+						continue
+					}
+					g.Run("many dropped tokens in a row:"+kind, []Ev{{"op": "tok", "kind": kind, "opts": toAnyList(optList(bits)), "input": cpsR([]rune("a" + strings.Repeat(unit, cnt) + "b"))}})
+				}
+			}
+		}
+		if g.Thorough() {
+			// one line far longer than 65535 columns, many lines, many tokens
+			g.Run("giant inputs:"+kind, []Ev{{"op": "tok", "kind": kind, "opts": []any{}, "input": cpsR([]rune(strings.Repeat("a", 70000) + " b\nc"))}})
+			g.Run("giant inputs:"+kind, []Ev{{"op": "tok", "kind": kind, "opts": []any{}, "input": cpsR([]rune(strings.Repeat("\n", 70000) + "b c"))}})
+		}
+		for _, sz := range []int{64, 65, 129, 257, 600} {
+			if sz > g.Pick(130, 600) {
+				continue
+			}
+			for rep := 0; rep < g.Pick(1, 6); rep++ {
+				in := longInput(g, kind, sz)
+				for _, bits := range []int{127, 1 | 2 | 4 | 8, 16 | 32 | 64} {
+					g.Run("long inputs x option sets:"+kind, []Ev{{"op": "tok", "kind": kind, "opts": toAnyList(optList(bits)), "input": cpsR(in)}})
 				}
 			}
 		}
